@@ -305,7 +305,24 @@ pub fn build_msg(c: &MsgCase) -> BuiltMsg {
     for (i, (t, a)) in c.items.iter().enumerate() {
         let mut msg = |kind: &str, assembled: bool, w: &mut Vec<String>, wo: &mut Vec<String>, expect: &mut Vec<(String, usize)>| {
             n += 1;
-            let text = format!("note n{}x a{}x", n, a);
+            // texts carry what a scanner of the line could mistake for something else: quotes of the other
+            // kind, comment characters, brackets, commas, a backslash, banners of operator characters
+            let decor: String = match (n + *a as usize) % 16 {
+                1 => " it's".into(),
+                2 => " ; semi".into(),
+                3 => " // slashes".into(),
+                4 => " /* c */".into(),
+                5 => " 100% (done".into(),
+                6 => format!(" don't {}", "-".repeat(130 + *a as usize % 40)),
+                7 => format!(" {}", "=".repeat(135 + *a as usize % 40)),
+                8 => format!(" 'q {}", "*+".repeat(70 + *a as usize % 20)),
+                9 => " back\\slash \\".into(),
+                10 => " a,b , c".into(),
+                11 => " @0 @1 .endif .endm".into(),
+                12 => format!(" ((((( {}", "<>".repeat(80)),
+                _ => String::new(),
+            };
+            let text = format!("note n{}x a{}x{}", n, a, decor);
             let (dir, pre) = if kind == "w" { (".warning", "warning") } else { (".message", "info") };
             push(w, wo, format!("{} \"{}\"", dir, text), true);
             if assembled {
